@@ -50,12 +50,18 @@ def run_continue(case):
     start_step = int(tB1[idx])
     remaining = L1 + L2 - start_step
     oB2["rotations"] = rot(remaining)
+    if case.get("inplace"):
+        # continuing "in place": the results go to the very file the run starts from (what rerunning with the saved .cfg and
+        # -i does).  The comparison keeps its own copy of the first leg.
+        import shutil
+        shutil.copy(os.path.join(wd, "b1.h5"), os.path.join(wd, "b2.h5"))
+        oB2["InitialDistFile"] = "b2.h5"
     rB2 = cli.run(base + ["-o", "b2.h5"] + cli.optargs(oB2), wd)
     if rB2.rc != 0 or "Finished." not in rB2.out:
         return Outcome(False, True, ["runfail"], "continued run failed: %s %s" % (rB2.out[-400:], rB2.err[-300:]), sig="c11:runfail2")
     hB2 = cli.H5(os.path.join(wd, "b2.h5"))
     cls = ["ren%d" % (ren if ren <= 0 else 1), "sel_default" if sel is None else "sel%d" % (0 if sel >= 0 else 1),
-           "wake" if o.get("VacuumGap", 0.03) != 0 else "nowake"]
+           "wake" if o.get("VacuumGap", 0.03) != 0 else "nowake"] + (["inplace"] if case.get("inplace") else [])
     nontriv = bool(L1 >= 5 and L2 >= 5 and o.get("InitialDistZoom", 1.0) != 1.0)
     met = {}
     # 1. loads exactly
@@ -147,7 +153,10 @@ def continue_cases(draw):
     L2 = draw(st.integers(1, 4)) if draw(st.integers(0, 5)) == 5 else draw(st.integers(5, 60))
     outstep = draw(st.sampled_from([1, 2, 5, max(1, L1)]))
     sel = draw(st.sampled_from([None, None, -1, -2, 0, 1, 3]))
-    return dict(opts=o, L1=L1, L2=L2, outstep=outstep, startstep=sel, save2=draw(st.sampled_from([0, 1, 3])))
+    c = dict(opts=o, L1=L1, L2=L2, outstep=outstep, startstep=sel, save2=draw(st.sampled_from([0, 1, 3])))
+    if draw(st.integers(0, 4)) == 0:
+        c["inplace"] = True
+    return c
 
 
 # ------------------------------------------------------------------ refusal
